@@ -268,12 +268,18 @@ impl Run {
     pub fn new(args: &Args, level: &'static str) -> Self {
         // Subject panics are caught and turned into failures; keep stderr quiet about them.
         install_quiet_panic_hook();
+        // A check can be run on behalf of another property (C17 re-runs the exact-window / deserialisation drivers of
+        // other groups under a memory monitor): everything reported - replay files, evidence part, VIOLATION lines,
+        // known-finding lookup - then carries that property's id.
+        let report_as = std::env::var("VERIF_AS_PROPERTY").ok().filter(|s| !s.is_empty()).unwrap_or_else(|| args.property.clone());
         if args.replay.is_none() {
-            let p = verif_root().join("replays").join(&args.property).join(format!("{}-crash.json", args.tier.name()));
-            crash::install(&args.property, args.tier.name(), &p);
+            // one replay name space per evidence part: several group binaries may report for the same property
+            let part = std::env::var("VERIF_EVIDENCE_PART").ok().filter(|s| !s.is_empty()).map(|s| format!("{s}-")).unwrap_or_default();
+            let p = verif_root().join("replays").join(&report_as).join(format!("{}-{}crash.json", args.tier.name(), part));
+            crash::install(&report_as, args.tier.name(), &p);
         }
         Run {
-            property: args.property.clone(),
+            property: report_as,
             tier: args.tier,
             seed: args.seed,
             level,
@@ -441,13 +447,27 @@ impl Run {
     }
 
     /// Writes evidence, replays, prints verdict lines, returns process exit code.
-    pub fn finish(self) -> i32 {
+    pub fn finish(mut self) -> i32 {
         crash::disarm();
         let root = verif_root();
         let known = load_known_findings(&root, &self.property);
         let mut known_hits: BTreeMap<String, u64> = BTreeMap::new();
         let mut violations: Vec<&Failure> = Vec::new();
         let mut total_fail = 0u64;
+        // VERIF_FAIL_KINDS=a,b,c keeps only failures of these kinds (the others belong to the property the driver was
+        // written for and are reported there); fatal signals never get here, the crash handler reports them itself
+        let keep_kinds: Option<Vec<String>> = std::env::var("VERIF_FAIL_KINDS").ok().filter(|s| !s.is_empty()).map(|s| s.split(',').map(|x| x.trim().to_string()).collect());
+        let mut ignored_other_kinds = 0u64;
+        if let Some(kinds) = &keep_kinds {
+            for fam in self.families.iter_mut() {
+                let before = fam.rec.failures.len() as u64;
+                fam.rec.failures.retain(|f| f.desc.get("kind").and_then(|k| k.as_str()).map(|k| kinds.iter().any(|x| x == k)).unwrap_or(false));
+                ignored_other_kinds += before - fam.rec.failures.len() as u64 + fam.rec.suppressed_failures;
+                fam.rec.suppressed_failures = 0;
+            }
+            self.notes.insert("failures_of_other_kinds_ignored".into(), json!(ignored_other_kinds));
+            self.notes.insert("kinds_judged".into(), json!(kinds));
+        }
         for fam in &self.families {
             total_fail += fam.rec.suppressed_failures;
             for fl in &fam.rec.failures {
@@ -498,7 +518,8 @@ impl Run {
                     v.desc.get("kind").and_then(|x| x.as_str()).unwrap_or("")
                 );
                 if seen.insert(g) && replay_paths.len() < 16 {
-                    let p = rdir.join(format!("{}-{:03}.json", self.tier.name(), replay_paths.len()));
+                    let part = std::env::var("VERIF_EVIDENCE_PART").ok().filter(|s| !s.is_empty()).map(|s| format!("{s}-")).unwrap_or_default();
+                    let p = rdir.join(format!("{}-{}{:03}.json", self.tier.name(), part, replay_paths.len()));
                     let mut d = v.desc.clone();
                     if let Value::Object(m) = &mut d {
                         m.insert("property".into(), json!(self.property));
